@@ -21,7 +21,7 @@ func c16Program() *hs.Program {
 	intT := hs.TInt
 	objT := hs.TObj(hs.Field{Name: "a", T: hs.TInt}, hs.Field{Name: "b", T: hs.TStr})
 	return &hs.Program{
-		Globals: []*hs.Let{{Name: "counter", X: hs.I(0)}, {Name: "done", X: hs.I(0)}},
+		Globals: []*hs.Let{{Name: "counter", X: hs.I(0)}, {Name: "done", X: hs.I(0)}, {Name: "ITEMS", X: hs.List(hs.I(10), hs.I(20), hs.I(30))}},
 		Funcs: []*hs.Func{
 			hs.Fn("main", nil, hs.Blk(nil)),
 			hs.Fn("sub", intT, hs.Blk(hs.Bin("-", hs.V("a"), hs.V("b"))), hs.P("a", intT), hs.P("b", intT)),
@@ -49,6 +49,13 @@ func c16Program() *hs.Program {
 				hs.LetS("i", hs.I(0)), &hs.While{Cond: hs.Bin("<", hs.V("i"), hs.I(12)), Body: hs.Blk(nil, hs.ES(hs.Asg("+=", hs.V("i"), hs.I(1))))},
 				hs.ES(&hs.Spawn{Fn: "long"}))),
 			hs.Fn("getdone", intT, hs.Blk(hs.V("done"))),
+			// a loop over a long-lived list handed out by a call, left early: the next call (and
+			// the next loop) must start from the first element again
+			hs.Fn("items", hs.TList(intT), hs.Blk(hs.V("ITEMS"))),
+			hs.Fn("firstover", intT, hs.Blk(hs.I(-1),
+				&hs.For{Var: "x", Iter: hs.CallN("items"), Body: hs.Blk(nil, hs.ES(&hs.If{Cond: hs.Bin(">", hs.V("x"), hs.V("n")), Then: hs.Blk(nil, &hs.Return{X: hs.V("x")})}))}), hs.P("n", intT)),
+			// heap state reachable from a global persists from call to call
+			hs.Fn("grow", intT, hs.Blk(hs.MCall(hs.V("ITEMS"), "len"), hs.ES(hs.MCall(hs.V("ITEMS"), "push", hs.I(40))))),
 			hs.Fn("caught", intT, hs.Blk(&hs.Try{Body: hs.Blk(hs.I(1), hs.ES(hs.CallN("throw", hs.S("inner")))), Var: "e", Catch: hs.Blk(hs.I(7))})),
 		},
 	}
@@ -70,6 +77,7 @@ func (c hostCall) String() string {
 var c16Alphabet = []hostCall{
 	{"sub", []int64{1, 0}}, {"sub", []int64{0, 1}}, {"inc", nil}, {"get", nil}, {"early", []int64{0}}, {"early", []int64{2}},
 	{"boom", nil}, {"deep", []int64{0}}, {"deep", []int64{3}}, {"obj", nil}, {"caught", nil}, {"launch", nil}, {"getdone", nil},
+	{"firstover", []int64{15}}, {"firstover", []int64{5}}, {"grow", nil},
 }
 
 var sp = herrors.Span{}
@@ -82,7 +90,7 @@ func c16Signature(fn string) runtime.FunctionInvocationSignature {
 	switch fn {
 	case "sub":
 		return runtime.FunctionInvocationSignature{Params: []runtime.FunctionInvocationSignatureParam{param("a"), param("b")}, ReturnType: intT}
-	case "early", "deep":
+	case "early", "deep", "firstover":
 		return runtime.FunctionInvocationSignature{Params: []runtime.FunctionInvocationSignatureParam{param("n")}, ReturnType: intT}
 	case "obj":
 		return runtime.FunctionInvocationSignature{ReturnType: ast.NewObjectType([]ast.ObjectTypeField{
